@@ -966,7 +966,7 @@ r3:
 					tn := ""
 					if mi, isMI := c.Args[2].(*ssa.MakeInterface); isMI {
 						if nn, isN := types.Unalias(mi.X.Type()).(*types.Named); isN {
-							tn = "lit:" + nn.Obj().Name() + "{"
+							tn = "lit:" + pinnedShortName(nn) + "{"
 						}
 					}
 					if w.pathOf(c.Args[1]) == "P0.agentPID" && tn == lit {
